@@ -373,6 +373,53 @@ func checkC15(job *Job, res *Result) {
 		if x.Err != "" {
 			res.Violate("C15/hang:password-http", x.Err, nil)
 		}
+		// ---- protected mode decided at run time: the password / protected-mode settings change while the server runs
+		for _, tr := range []struct{ name, cfg string; cmds [][]string; wantDenied bool }{
+			{"password removed", `{"requirepass":"pw"}`, [][]string{{"AUTH", "pw"}, {"CONFIG", "SET", "requirepass", ""}}, true},
+			{"protected-mode switched on", `{"protected-mode":"no"}`, [][]string{{"CONFIG", "SET", "protected-mode", "yes"}}, true},
+			{"protected-mode switched off", ``, [][]string{{"CONFIG", "SET", "protected-mode", "no"}}, false},
+			{"password set", ``, [][]string{{"CONFIG", "SET", "requirepass", "pw2"}}, false},
+		} {
+			tr := tr
+			x := runExec(job, freezeAllBut(), func(x *Exec) {
+				dir := x.dir + "/L"
+				os.MkdirAll(dir, 0700)
+				if tr.cfg != "" {
+					os.WriteFile(filepath.Join(dir, "config"), []byte(tr.cfg), 0600)
+				}
+				in := x.Start("L", dir, 9001, func(o *Options) { o.ProtectedMode = "yes"; o.Host = "" })
+				in.Addr = ":9001"
+				lc := x.DialFrom(":9001", "127.0.0.1:50000")
+				// before the transition the opposite must hold for a non-loopback peer
+				probe := func() (denied bool, got string) {
+					c := x.DialFrom(":9001", "192.0.2.9:50002")
+					c.Send(respCmd("PING"))
+					vsched.WaitUntilOr(func() bool { return c.c.EOF() || c.c.Avail() > 0 }, int64(2*stdtime.Second))
+					vsched.Quiesce()
+					got = string(c.c.Drain())
+					c.c.Kill()
+					return strings.HasPrefix(got, "-DENIED"), got
+				}
+				before, gotB := probe()
+				if before == tr.wantDenied {
+					viol("protected-mode-initial-state", fmt.Sprintf("before the transition %q a non-loopback peer got %s", tr.name, vclip(gotB, 80)), c15Inst{Cmd: "PING", Wrapper: tr.name}, "protected")
+				}
+				for _, cmd := range tr.cmds {
+					if r := lc.Do(cmd...); r.IsErr() {
+						viol("protected-mode-transition", fmt.Sprintf("%v replied %s", cmd, r), c15Inst{Cmd: cmd[0], Wrapper: tr.name}, "protected")
+					}
+				}
+				after, gotA := probe()
+				if after != tr.wantDenied {
+					viol("protected-mode-not-re-evaluated", fmt.Sprintf("after the transition %q a new non-loopback peer got %s (denied expected: %v)", tr.name, vclip(gotA, 80), tr.wantDenied), c15Inst{Cmd: "PING", Wrapper: tr.name}, "protected")
+				}
+				res.Evaluations++
+				res.DistinctS("protected-transition" + tr.name)
+			})
+			if x.Err != "" {
+				res.Violate("C15/hang:protected-transition", x.Err, nil)
+			}
+		}
 		// ---- protected mode
 		for _, from := range []string{"127.0.0.1:50001", "192.0.2.7:50001", "[::1]:50001",
 			"[fe80::1%eth0]:50001", "[2001:db8::1]:50001", "10.0.0.5:50001", "[::ffff:192.0.2.7]:50001", "[fe80::1%lo]:50001", "169.254.1.1:50001", "1.127.0.0.1:50001"[2:], "128.0.0.1:50001"} {
